@@ -180,7 +180,12 @@ class Options:
             option_number += delta
             if len(rawdata) < length:
                 raise UnparsableMessage("Option announced but absent")
-            option = option_number.create_option(decode=rawdata[:length])
+            try:
+                option = option_number.create_option(decode=rawdata[:length])
+            except UnicodeDecodeError as e:
+                raise UnparsableMessage(
+                    "Option %s does not contain valid UTF-8" % option_number
+                ) from e
             self.add_option(option)
             rawdata = rawdata[length:]
         return b""
